@@ -131,7 +131,7 @@ theorem mergeVal_spine (lv rv : Vers) : ∀ (ks : List String) (p : String) (a b
           | some b' =>
             simp only [hga, hgb] at hg ha hb
             simp only [hg, path_some]
-            obtain ⟨h1, h2⟩ := ih (p ++ "." ++ k) a' b' ha.2 hb.2
+            obtain ⟨h1, h2⟩ := ih (p ++ "." ++ esc k) a' b' ha.2 hb.2
             exact ⟨⟨hu, h1⟩, h2⟩
       | _ => simp [SpinePath] at hb
     | _ => simp [SpinePath] at ha
@@ -145,7 +145,7 @@ def ShapeOK2 (k0 : String) (rest : List String) (c : Ctx) : Prop :=
   (match get? c.data k0 with
    | none => True
    | some v => SpinePath v rest) ∧
-  (getPath c.data k0 rest = none → ver c.vers (keyOf k0 rest) ≤ 1)
+  (getPath c.data k0 rest = none → ver c.vers (keyOf (esc k0) rest) ≤ 1)
 
 /-- SPINE-STABLE REPUBLICATION at the path (decidable): a publication that contains the variable has
     dictionaries along the path down to a leaf or to a missing key (it may DROP the leaf, it may not put a
@@ -156,8 +156,8 @@ def StablePub2 (k0 : String) (rest : List String) (pub : Dict) : Prop :=
   (match get? pub k0 with
    | some v => SpinePath v rest
    | none => True) ∧
-  (getPath pub k0 rest = none → keyOf k0 rest ∉ leafKeysKv none pub) ∧
-  (leafKeysKv none pub).count (keyOf k0 rest) ≤ 1
+  (getPath pub k0 rest = none → keyOf (esc k0) rest ∉ leafKeysKv none pub) ∧
+  (leafKeysKv none pub).count (keyOf (esc k0) rest) ≤ 1
 
 instance (k0 : String) (rest : List String) (pub : Dict) : Decidable (StablePub2 k0 rest pub) := by
   unfold StablePub2
@@ -180,14 +180,14 @@ theorem ShapeOK2.leaf {k0 : String} {rest : List String} {c : Ctx} (h : ShapeOK2
 theorem merge_at_path2 (k0 : String) (rest : List String) (hk : k0 ≠ "__task_execution") (l r : Ctx)
     (hl : ShapeOK2 k0 rest l) (hr : ShapeOK2 k0 rest r) :
     ShapeOK2 k0 rest (mergeByVersion l r) ∧
-    ver (mergeByVersion l r).vers (keyOf k0 rest) = max (ver l.vers (keyOf k0 rest)) (ver r.vers (keyOf k0 rest)) ∧
+    ver (mergeByVersion l r).vers (keyOf (esc k0) rest) = max (ver l.vers (keyOf (esc k0) rest)) (ver r.vers (keyOf (esc k0) rest)) ∧
     getPath (mergeByVersion l r).data k0 rest =
-      cellVal (getPath l.data k0 rest) (ver l.vers (keyOf k0 rest)) (getPath r.data k0 rest)
-        (ver r.vers (keyOf k0 rest)) := by
+      cellVal (getPath l.data k0 rest) (ver l.vers (keyOf (esc k0) rest)) (getPath r.data k0 rest)
+        (ver r.vers (keyOf (esc k0) rest)) := by
   obtain ⟨hl1, hl2, hl3, hl4⟩ := hl
   obtain ⟨hr1, hr2, hr3, hr4⟩ := hr
-  have hver : ver (mergeByVersion l r).vers (keyOf k0 rest) =
-      max (ver l.vers (keyOf k0 rest)) (ver r.vers (keyOf k0 rest)) := by
+  have hver : ver (mergeByVersion l r).vers (keyOf (esc k0) rest) =
+      max (ver l.vers (keyOf (esc k0) rest)) (ver r.vers (keyOf (esc k0) rest)) := by
     unfold mergeByVersion; exact ver_mergeVers _ _ hr2 _
   have hsl : get? (stripInternal l.data) k0 = get? l.data k0 :=
     get?_erase_other _ _ _ (fun e => hk e.symm)
@@ -200,7 +200,7 @@ theorem merge_at_path2 (k0 : String) (rest : List String) (hk : k0 ≠ "__task_e
       | none => get? l.data k0
       | some v => match get? l.data k0 with
         | none => some v
-        | some lval => some (mergeVal l.vers r.vers k0 lval v) := by
+        | some lval => some (mergeVal l.vers r.vers (esc k0) lval v) := by
     unfold mergeByVersion
     simp only
     rw [mergeKv_get _ _ _ _ _ hur k0, hsl, hsr, path_none]
@@ -210,8 +210,8 @@ theorem merge_at_path2 (k0 : String) (rest : List String) (hk : k0 ≠ "__task_e
   have huv : UniqueKeys (mergeByVersion l r).vers := by
     unfold mergeByVersion; exact uniqueKeys_mergeVers _ _ hl2
   have hpath : getPath (mergeByVersion l r).data k0 rest =
-      cellVal (getPath l.data k0 rest) (ver l.vers (keyOf k0 rest)) (getPath r.data k0 rest)
-        (ver r.vers (keyOf k0 rest)) := by
+      cellVal (getPath l.data k0 rest) (ver l.vers (keyOf (esc k0) rest)) (getPath r.data k0 rest)
+        (ver r.vers (keyOf (esc k0) rest)) := by
     simp only [getPath_of_get?, hget]
     cases hgr : get? r.data k0 with
     | none => simp [cellVal_none_right]
@@ -221,7 +221,7 @@ theorem merge_at_path2 (k0 : String) (rest : List String) (hk : k0 ≠ "__task_e
       | none => simp [cellVal_none_left]
       | some a =>
         simp only [hgl] at hl3
-        exact (mergeVal_spine l.vers r.vers rest k0 a b hl3 hr3).2
+        exact (mergeVal_spine l.vers r.vers rest (esc k0) a b hl3 hr3).2
   refine ⟨⟨hud, huv, ?_, ?_⟩, hver, hpath⟩
   · rw [hget]
     cases hgr : get? r.data k0 with
@@ -235,7 +235,7 @@ theorem merge_at_path2 (k0 : String) (rest : List String) (hk : k0 ≠ "__task_e
       | none => exact hr3
       | some a =>
         simp only [hgl] at hl3
-        exact (mergeVal_spine _ _ rest k0 a b hl3 hr3).1
+        exact (mergeVal_spine _ _ rest (esc k0) a b hl3 hr3).1
   · intro hn
     rw [hpath] at hn
     obtain ⟨h1, h2⟩ := cellVal_eq_none _ _ _ _ hn
@@ -247,30 +247,30 @@ theorem merge_at_path2 (k0 : String) (rest : List String) (hk : k0 ≠ "__task_e
     the leaf needs an inbound context that has seen at most one generation of it -/
 theorem outbound_at_path2 (k0 : String) (rest : List String) (c : Ctx) (pub : Dict)
     (hp : StablePub2 k0 rest pub) (hc : ShapeOK2 k0 rest c)
-    (hdel : get? pub k0 ≠ none → getPath pub k0 rest = none → ver c.vers (keyOf k0 rest) ≤ 1) :
+    (hdel : get? pub k0 ≠ none → getPath pub k0 rest = none → ver c.vers (keyOf (esc k0) rest) ≤ 1) :
     ShapeOK2 k0 rest (outbound c pub) ∧
     getPath (outbound c pub).data k0 rest =
       (match get? pub k0 with
        | some _ => getPath pub k0 rest
        | none => getPath c.data k0 rest) ∧
-    (getPath pub k0 rest = none → ver (outbound c pub).vers (keyOf k0 rest) = ver c.vers (keyOf k0 rest)) ∧
+    (getPath pub k0 rest = none → ver (outbound c pub).vers (keyOf (esc k0) rest) = ver c.vers (keyOf (esc k0) rest)) ∧
     (getPath pub k0 rest ≠ none →
-      ver (outbound c pub).vers (keyOf k0 rest) = ver c.vers (keyOf k0 rest) + 1) := by
+      ver (outbound c pub).vers (keyOf (esc k0) rest) = ver c.vers (keyOf (esc k0) rest) + 1) := by
   obtain ⟨hc1, hc2, hc3, hc4⟩ := hc
   obtain ⟨hp1, hp2, hp3, hp4⟩ := hp
   have hget : get? (outbound c pub).data k0 = match get? pub k0 with
       | some v => some v
       | none => get? c.data k0 := by
     unfold outbound; exact get?_update_unique _ _ hp1 k0
-  have hver : ver (outbound c pub).vers (keyOf k0 rest) =
-      ver c.vers (keyOf k0 rest) + (leafKeysKv none pub).count (keyOf k0 rest) := by
+  have hver : ver (outbound c pub).vers (keyOf (esc k0) rest) =
+      ver c.vers (keyOf (esc k0) rest) + (leafKeysKv none pub).count (keyOf (esc k0) rest) := by
     unfold outbound; exact ver_bump _ _ _
   have hnone : getPath pub k0 rest = none →
-      ver (outbound c pub).vers (keyOf k0 rest) = ver c.vers (keyOf k0 rest) := by
+      ver (outbound c pub).vers (keyOf (esc k0) rest) = ver c.vers (keyOf (esc k0) rest) := by
     intro hg
     rw [hver, List.count_eq_zero_of_not_mem (hp3 hg)]; rfl
   have hsome : getPath pub k0 rest ≠ none →
-      ver (outbound c pub).vers (keyOf k0 rest) = ver c.vers (keyOf k0 rest) + 1 := by
+      ver (outbound c pub).vers (keyOf (esc k0) rest) = ver c.vers (keyOf (esc k0) rest) + 1 := by
     intro hg
     cases hgp : get? pub k0 with
     | none => rw [getPath_of_get?, hgp] at hg; exact absurd rfl hg
@@ -281,9 +281,9 @@ theorem outbound_at_path2 (k0 : String) (rest : List String) (c : Ctx) (pub : Di
       | some x =>
         rw [getPath_of_get?, hgp] at hx
         have hlp := (SpinePath.leafPath rest v x hp2 hx).1
-        have hm : keyOf k0 rest ∈ leafKeysKv none pub :=
-          leafKeysKv_mem_of_get? none _ pub k0 v hgp (by rw [path_none]; exact leafKey_mem rest k0 v hlp)
-        have : 0 < (leafKeysKv none pub).count (keyOf k0 rest) := List.count_pos_iff.mpr hm
+        have hm : keyOf (esc k0) rest ∈ leafKeysKv none pub :=
+          leafKeysKv_mem_of_get? none _ pub k0 v hgp (by rw [path_none]; exact leafKey_mem rest (esc k0) v hlp)
+        have : 0 < (leafKeysKv none pub).count (keyOf (esc k0) rest) := List.count_pos_iff.mpr hm
         rw [hver]; omega
   have hpath : getPath (outbound c pub).data k0 rest =
       (match get? pub k0 with
@@ -325,18 +325,18 @@ structure Good2 (k0 : String) (rest : List String) (rows : List Row) : Prop wher
   outOfIn : ∀ (i : Nat) (r : Row), rows[i]? = some r → r.out = outbound r.inb r.task.pub
   stable : ∀ (i : Nat) (r : Row), rows[i]? = some r → StablePub2 k0 rest r.task.pub
   dropLow : ∀ (i : Nat) (r : Row), rows[i]? = some r → Drops k0 rest r.task →
-    ver r.inb.vers (keyOf k0 rest) ≤ 1
+    ver r.inb.vers (keyOf (esc k0) rest) ≤ 1
   ancLt : ∀ (i : Nat) (r : Row), rows[i]? = some r → ∀ q ∈ r.anc, q < i
   ancTrans : ∀ (i : Nat) (r : Row), rows[i]? = some r → ∀ q ∈ r.anc, ∀ rq : Row, rows[q]? = some rq →
     ∀ q' ∈ rq.anc, q' ∈ r.anc
   domIn : ∀ (i : Nat) (r : Row), rows[i]? = some r → ∀ q ∈ r.anc, ∀ rq : Row, rows[q]? = some rq →
-    ver rq.out.vers (keyOf k0 rest) ≤ ver r.inb.vers (keyOf k0 rest)
+    ver rq.out.vers (keyOf (esc k0) rest) ≤ ver r.inb.vers (keyOf (esc k0) rest)
   witIn : ∀ (i : Nat) (r : Row), rows[i]? = some r → ∀ x, getPath r.inb.data k0 rest = some x →
     ∃ q ∈ r.anc, ∃ rq : Row, rows[q]? = some rq ∧ getPath rq.task.pub k0 rest = some x ∧
-      ver rq.out.vers (keyOf k0 rest) = ver r.inb.vers (keyOf k0 rest)
+      ver rq.out.vers (keyOf (esc k0) rest) = ver r.inb.vers (keyOf (esc k0) rest)
   /-- a task does not see the leaf only if nothing of it was ever seen or a causal ancestor dropped it -/
   absIn : ∀ (i : Nat) (r : Row), rows[i]? = some r → getPath r.inb.data k0 rest = none →
-    ver r.inb.vers (keyOf k0 rest) = 0 ∨
+    ver r.inb.vers (keyOf (esc k0) rest) = 0 ∨
     ∃ d ∈ r.anc, ∃ rd : Row, rows[d]? = some rd ∧ Drops k0 rest rd.task
 
 theorem Good2.outFacts {k0 : String} {rest : List String} {rows : List Row} (g : Good2 k0 rest rows)
@@ -346,16 +346,16 @@ theorem Good2.outFacts {k0 : String} {rest : List String} {rows : List Row} (g :
       (match get? r.task.pub k0 with
        | some _ => getPath r.task.pub k0 rest
        | none => getPath r.inb.data k0 rest) ∧
-    (getPath r.task.pub k0 rest = none → ver r.out.vers (keyOf k0 rest) = ver r.inb.vers (keyOf k0 rest)) ∧
+    (getPath r.task.pub k0 rest = none → ver r.out.vers (keyOf (esc k0) rest) = ver r.inb.vers (keyOf (esc k0) rest)) ∧
     (getPath r.task.pub k0 rest ≠ none →
-      ver r.out.vers (keyOf k0 rest) = ver r.inb.vers (keyOf k0 rest) + 1) := by
+      ver r.out.vers (keyOf (esc k0) rest) = ver r.inb.vers (keyOf (esc k0) rest) + 1) := by
   rw [g.outOfIn i r h]
   exact outbound_at_path2 k0 rest _ _ (g.stable i r h) (g.shapeIn i r h)
     (fun h1 h2 => g.dropLow i r h ⟨h1, h2⟩)
 
 theorem Good2.verInOut {k0 : String} {rest : List String} {rows : List Row} (g : Good2 k0 rest rows)
     (i : Nat) (r : Row) (h : rows[i]? = some r) :
-    ver r.inb.vers (keyOf k0 rest) ≤ ver r.out.vers (keyOf k0 rest) := by
+    ver r.inb.vers (keyOf (esc k0) rest) ≤ ver r.out.vers (keyOf (esc k0) rest) := by
   obtain ⟨_, _, h1, h2⟩ := g.outFacts i r h
   cases hg : getPath r.task.pub k0 rest with
   | none => rw [h1 hg]; exact Nat.le_refl _
@@ -366,7 +366,7 @@ theorem good2_nil (k0 : String) (rest : List String) : Good2 k0 rest [] := by
 
 theorem good2_step (k0 : String) (rest : List String) (hk : k0 ≠ "__task_execution")
     (rows : List Row) (t : Task) (g : Good2 k0 rest rows) (ht : StablePub2 k0 rest t.pub)
-    (hdrop : Drops k0 rest t → ver (newRow rows t).inb.vers (keyOf k0 rest) ≤ 1) :
+    (hdrop : Drops k0 rest t → ver (newRow rows t).inb.vers (keyOf (esc k0) rest) ≤ 1) :
     Good2 k0 rest (stepRow rows t) := by
   have hstep : stepRow rows t = rows ++ [newRow rows t] := rfl
   rw [hstep]
@@ -385,7 +385,7 @@ theorem good2_step (k0 : String) (rest : List String) (hk : k0 ≠ "__task_execu
     rw [hni]
     exact upstream_ind (ShapeOK2 k0 rest) (shapeOK2_empty k0 rest)
       (fun l r hl hr => (merge_at_path2 k0 rest hk l r hl hr).1) _ hpsShape
-  have hge : ∀ pr ∈ parentRows rows t, ver pr.out.vers (keyOf k0 rest) ≤ ver nr.inb.vers (keyOf k0 rest) := by
+  have hge : ∀ pr ∈ parentRows rows t, ver pr.out.vers (keyOf (esc k0) rest) ≤ ver nr.inb.vers (keyOf (esc k0) rest) := by
     intro pr hpr
     rw [hni]
     exact ver_upstream_ge _ _ (fun c hc => (hpsShape c hc).2.1) pr.out (List.mem_map.mpr ⟨pr, hpr, rfl⟩)
@@ -405,7 +405,7 @@ theorem good2_step (k0 : String) (rest : List String) (hk : k0 ≠ "__task_execu
     · obtain ⟨p, _, hp⟩ := (mem_parentRows rows t pr).mp hpr
       exact (hna q').mpr (Or.inr ⟨pr, hpr, g.ancTrans p pr hp q hq rq hrq q' hq'⟩)
   have hDom : ∀ q ∈ nr.anc, ∀ rq, rows[q]? = some rq →
-      ver rq.out.vers (keyOf k0 rest) ≤ ver nr.inb.vers (keyOf k0 rest) := by
+      ver rq.out.vers (keyOf (esc k0) rest) ≤ ver nr.inb.vers (keyOf (esc k0) rest) := by
     intro q hq rq hrq
     rcases (hna q).mp hq with ⟨hqp, _⟩ | ⟨pr, hpr, hq⟩
     · exact hge rq ((mem_parentRows rows t rq).mpr ⟨q, hqp, hrq⟩)
@@ -416,10 +416,10 @@ theorem good2_step (k0 : String) (rest : List String) (hk : k0 ≠ "__task_execu
       omega
   -- the witness property, preserved by the fold; a present leaf has version >= 1 (its witness bumped it)
   let W : Ctx → Prop := fun c => ShapeOK2 k0 rest c ∧ (∀ x, getPath c.data k0 rest = some x →
-    1 ≤ ver c.vers (keyOf k0 rest) ∧
+    1 ≤ ver c.vers (keyOf (esc k0) rest) ∧
     ∃ q ∈ nr.anc, ∃ rq, rows[q]? = some rq ∧ getPath rq.task.pub k0 rest = some x ∧
-      ver rq.out.vers (keyOf k0 rest) = ver c.vers (keyOf k0 rest)) ∧
-    (getPath c.data k0 rest = none → ver c.vers (keyOf k0 rest) = 0 ∨
+      ver rq.out.vers (keyOf (esc k0) rest) = ver c.vers (keyOf (esc k0) rest)) ∧
+    (getPath c.data k0 rest = none → ver c.vers (keyOf (esc k0) rest) = 0 ∨
       ∃ d ∈ nr.anc, ∃ rd : Row, rows[d]? = some rd ∧ Drops k0 rest rd.task)
   have hWempty : W ⟨[], []⟩ := by
     refine ⟨shapeOK2_empty k0 rest, ?_, ?_⟩
@@ -458,7 +458,7 @@ theorem good2_step (k0 : String) (rest : List String) (hk : k0 ≠ "__task_execu
       | some x' =>
         rw [hgr, hgl] at hx
         simp only [cellVal] at hx
-        by_cases hc : ver r.vers (keyOf k0 rest) > ver l.vers (keyOf k0 rest)
+        by_cases hc : ver r.vers (keyOf (esc k0) rest) > ver l.vers (keyOf (esc k0) rest)
         · simp only [hc, if_true] at hx
           have hxe : y = x := Option.some.inj hx
           obtain ⟨h0, q, hq, rq, h1, h2, h3⟩ := wr y hgr
@@ -500,7 +500,7 @@ theorem good2_step (k0 : String) (rest : List String) (hk : k0 ≠ "__task_execu
       have hpn : getPath pr.task.pub k0 rest = none := by rw [getPath_of_get?, hg]
       obtain ⟨q, hq, rq, e1, e2, e3⟩ := g.witIn p pr hp x hx
       -- the witness published: its outbound version is positive
-      have hqpos : 1 ≤ ver rq.out.vers (keyOf k0 rest) := by
+      have hqpos : 1 ≤ ver rq.out.vers (keyOf (esc k0) rest) := by
         have := (g.outFacts q rq e1).2.2.2 (by rw [e2]; simp)
         omega
       exact ⟨by rw [h2 hpn]; omega, q, (hna q).mpr (Or.inr ⟨pr, hpr, hq⟩), rq, e1, e2, by rw [h2 hpn]; exact e3⟩
@@ -562,7 +562,7 @@ theorem good2_step (k0 : String) (rest : List String) (hk : k0 ≠ "__task_execu
     WITHOUT the leaf has seen at most ONE generation of it (decidable; `dropsLow_of_first_generation`
     gives a condition on the DAG alone) -/
 def DropsLow (k0 : String) (rest : List String) (h : List Task) : Prop :=
-  ∀ r ∈ runRows h, Drops k0 rest r.task → ver r.inb.vers (keyOf k0 rest) ≤ 1
+  ∀ r ∈ runRows h, Drops k0 rest r.task → ver r.inb.vers (keyOf (esc k0) rest) ≤ 1
 
 instance (k0 : String) (rest : List String) (t : Task) : Decidable (Drops k0 rest t) := by
   unfold Drops; exact inferInstance
